@@ -9,7 +9,7 @@ HARD = 240
 RULE = ("case = random grammar (recursive, epsilon, wide alternatives up to 40 symbols) + a closed derivation tree "
         "(<= ~60 nodes); per tree ALL ordered node pairs (incl. identical and ancestor/descendant) are judged for "
         "before/after/inside/direct_child/same_position/different_position/consecutive, nth for every index "
-        "1..occurrences+1 (int and numeric string), level for all 5 operators and every nonterminal labelling a node; "
+        "0..occurrences+1 (int and numeric string), level for all 5 operators and every nonterminal labelling a node; "
         "predicate objects from STANDARD_STRUCTURAL_PREDICATES for all pairs, plus sampled pairs end-to-end through "
         "evaluate() on a StructuralPredicateFormula; oracle = pre-order interval arithmetic (not path comparison); "
         "non-trivial = tree with >= 3 nodes (pairs of distinct nodes exist); distinct by tree hash. "
@@ -141,7 +141,7 @@ def judge(case):
             if rt.is_nt(lab[a]):
                 occ = [q for q in order if pre[b] <= pre[q] <= last[b] and lab[q] == lab[a]]
                 holds = []
-                for N in range(1, len(occ) + 2):
+                for N in range(0, len(occ) + 2):  # 0: no node is a "0-th occurrence" (counting starts at 1)
                     for Narg in (N, str(N)):
                         got = call("nth", Narg, a, b)
                         if isinstance(got, str):
@@ -150,7 +150,7 @@ def judge(case):
                         if got and Narg == N:
                             holds.append(N)
                         if lab[a] != lab[b]:
-                            e = inside and N <= len(occ) and occ[N - 1] == a
+                            e = inside and 1 <= N <= len(occ) and occ[N - 1] == a
                             if got != e:
                                 bad("nth:strict", N=Narg, a=a, b=b, expected=e, observed=got)
                 if len(holds) > 1:
